@@ -6,8 +6,12 @@ Transliteration of `/repo/chain/src/linked_list.rs` (`ListWrapper`, `ListEntry`,
 `get_list`, `get_entry`, `peek_pos`, `push_pos`, `pop_pos`, `rewind`, `clear`, `prune`,
 `pop_pos_back`) and of the callers in `/repo/chain/src/txhashset/txhashset.rs`
 (`apply_kernel_rules`, `Extension::apply_kernels`, `Extension::rewind_single_block` (the NRD part),
-`Extension::rewind` (the loop over blocks), `TxHashSet::verify_kernel_pos_index`,
-`TxHashSet::init_recent_kernel_pos_index`).
+`Extension::rewind` (the loop over blocks), `TxHashSet::verify_kernel_pos_index` (block-wise:
+`verifyKernelPosIndex`; with its lazy header walk over the kernel MMR as written: `verifyWalk` /
+`verifyKernelPosIndexWalk`, proved equal in `Lemmas/NrdWalk.lean`),
+`TxHashSet::init_recent_kernel_pos_index`).  Specification (`Spec`, `sPush`, … `sApplyBlocks`,
+`sRewindBlocks`): per excess the list of occurrences, most recent first; histories: `Op`, `step`,
+`run` and their specification twins.
 
 Store: two key spaces of the chain db, prefix `K` (`NRD_KERNEL_LIST_PREFIX`, key = excess
 commitment, value = `ListWrapper<CommitPos>`) and prefix `k` (`NRD_KERNEL_ENTRY_PREFIX`, key =
